@@ -53,7 +53,7 @@ def run(ctx):
     ctx.tlc("MC_DocComment", "MC_DocComment_dedent2", replay="totality", coverage=False)
     ctx.tlc("MC_DocComment", "MC_DocComment_malformed", replay="totality", coverage=False)
     os.environ["VERIF_TOTALITY_MUTATIONS"] = "40" if q else "200"
-    ctx.tlc("MC_Syntax", "MC_Syntax_sim", replay="totality", simulate={"num": 60 if q else 3000, "depth": 500, "procs": 6 if q else 12, "seed_offset": 10},
+    ctx.tlc("MC_Syntax", "MC_Syntax_sim", replay="totality", simulate={"num": 120 if q else 3000, "depth": 500, "procs": 12, "seed_offset": 10},
             label="MC_Syntax_sim", timeout=7200)
     os.environ["VERIF_TOTALITY_MUTATIONS"] = "0"
     ctx.tlc("MC_CyclesGen", "MC_CyclesGen_contain_" + ctx.tier, replay="cycles", coverage=False)
